@@ -25,6 +25,8 @@ enum Upd {
     Inc(u64),
     Abs(u64),
     Set(f64),
+    GInc(f64),
+    GDec(f64),
     Rec(f64),
 }
 
@@ -57,6 +59,8 @@ fn upd(s: &S, id: usize, u: Upd) {
         Upd::Inc(v) => s.c.increment(v),
         Upd::Abs(v) => s.c.absolute(v),
         Upd::Set(v) => s.g.set(v),
+        Upd::GInc(v) => s.g.increment(v),
+        Upd::GDec(v) => s.g.decrement(v),
         Upd::Rec(v) => s.h.record(v),
     }
     s.log.push(Ev::UpdRet(id));
@@ -168,33 +172,79 @@ fn oracle(s: &S, ops: &[Upd]) -> Verdict {
             }
         }
     }
-    // ---- gauge: every flush sends the most recent value
-    let g_ops: Vec<&(usize, usize, Upd)> = h.upds.iter().filter(|u| matches!(u.2, Upd::Set(_))).collect();
+    // ---- gauge: every flush sends the most recent value. With increments/decrements in play "most recent" is the
+    // value after some prefix of a linearization of the gauge operations (consistent with their real-time order) that
+    // contains every operation that returned before the flush began and none that was called after it returned; one
+    // linearization has to explain all flushes, with cut points that do not move backwards.
+    let g_ops: Vec<&(usize, usize, Upd)> = h.upds.iter().filter(|u| matches!(u.2, Upd::Set(_) | Upd::GInc(_) | Upd::GDec(_))).collect();
     if !g_ops.is_empty() {
+        let mut sent: Vec<f64> = Vec::new();
         for (fi, f) in h.flushes.iter().enumerate() {
             let ms: Vec<&Msg> = f.2.iter().filter(|m| m.ty == 'g').collect();
             if ms.len() != 1 {
                 return vsched::fail("gauge-not-sent-once-per-flush", format!("flush {} sent {} gauge messages", fi, ms.len()));
             }
-            let got: f64 = ms[0].values[0].parse().unwrap_or(f64::NAN);
-            // candidates: sets overlapping the flush, plus the latest set completed before the flush began (or 0.0)
-            let mut cands: Vec<f64> = g_ops.iter().filter(|u| overlaps((u.0, u.1), (f.0, f.1))).map(|u| if let Upd::Set(v) = u.2 { v } else { 0.0 }).collect();
-            let before: Vec<&&(usize, usize, Upd)> = g_ops.iter().filter(|u| u.1 < f.0).collect();
-            let latest_ret = before.iter().map(|u| u.1).max();
-            match latest_ret {
-                None => cands.push(0.0),
-                Some(_) => {
-                    // any completed set not followed (strictly after it returned) by another completed set
-                    for u in &before {
-                        if !before.iter().any(|w| w.0 > u.1) {
-                            cands.push(if let Upd::Set(v) = u.2 { v } else { 0.0 });
-                        }
+            sent.push(ms[0].values[0].parse().unwrap_or(f64::NAN));
+        }
+        let n = g_ops.len();
+        let mut perm: Vec<usize> = Vec::new();
+        let mut used = vec![false; n];
+        fn explains(order: &[usize], g_ops: &[&(usize, usize, Upd)], flushes: &[(usize, usize, Vec<Msg>)], sent: &[f64]) -> bool {
+            // prefix values
+            let mut vals = vec![0.0f64];
+            for &i in order {
+                let cur = *vals.last().unwrap();
+                vals.push(match g_ops[i].2 {
+                    Upd::Set(v) => v,
+                    Upd::GInc(v) => cur + v,
+                    Upd::GDec(v) => cur - v,
+                    _ => cur,
+                });
+            }
+            let mut lo = 0usize;
+            for (fi, f) in flushes.iter().enumerate() {
+                // smallest admissible cut >= lo giving the sent value
+                let mut found = None;
+                for cut in lo..=order.len() {
+                    let inside_ok = order[..cut].iter().all(|&i| g_ops[i].0 < f.1); // nothing called after the flush returned
+                    let outside_ok = order[cut..].iter().all(|&i| g_ops[i].1 > f.0); // nothing that returned before it began
+                    if inside_ok && outside_ok && vals[cut] == sent[fi] {
+                        found = Some(cut);
+                        break;
                     }
                 }
+                match found {
+                    Some(c) => lo = c,
+                    None => return false,
+                }
             }
-            if !cands.iter().any(|c| *c == got) {
-                return vsched::fail("gauge-flush-not-most-recent-value", format!("flush {} sent gauge {} but the most recent value could only be one of {:?}", fi, got, cands));
+            true
+        }
+        fn rec(perm: &mut Vec<usize>, used: &mut Vec<bool>, g_ops: &[&(usize, usize, Upd)], flushes: &[(usize, usize, Vec<Msg>)], sent: &[f64]) -> bool {
+            let n = g_ops.len();
+            if perm.len() == n {
+                return explains(perm, g_ops, flushes, sent);
             }
+            for i in 0..n {
+                if used[i] {
+                    continue;
+                }
+                // real-time order: i may come next only if no unused op returned before i was called
+                if (0..n).any(|j| !used[j] && j != i && g_ops[j].1 < g_ops[i].0) {
+                    continue;
+                }
+                used[i] = true;
+                perm.push(i);
+                if rec(perm, used, g_ops, flushes, sent) {
+                    return true;
+                }
+                perm.pop();
+                used[i] = false;
+            }
+            false
+        }
+        if !rec(&mut perm, &mut used, &g_ops, &h.flushes, &sent) {
+            return vsched::fail("gauge-flush-not-most-recent-value", format!("gauge values sent per flush {:?} are not explained by any order of the gauge operations {:?}", sent, g_ops.iter().map(|u| u.2).collect::<Vec<_>>()));
         }
     }
     // ---- histogram: every recorded value in exactly one flush
@@ -274,14 +324,21 @@ fn recv_all(kind: &str, path: &std::path::Path, want_msgs: usize, cfg: &serde_js
         if cfg["labels"].as_bool().unwrap_or(false) {
             b = b.with_global_labels(vec![metrics::Label::new("env", "t")]);
         }
+        match cfg["extra"].as_str() {
+            Some("maxlen") => b = b.with_maximum_payload_length(40).map_err(|e| e.to_string())?,
+            Some("sampling") => b = b.with_histogram_sampling(true).with_histogram_reservoir_size(2),
+            _ => {}
+        }
         b.build().map_err(|e| e.to_string())
     };
     let emit = |rec: &metrics_exporter_dogstatsd::DogStatsDRecorder| {
         rec.register_counter(&Key::from_parts("cnt", vec![metrics::Label::new("k", "v")]), &META).increment(7);
         rec.register_gauge(&Key::from_name("gau"), &META).set(2.5);
         let h = rec.register_histogram(&Key::from_name("his"), &META);
-        h.record(1.0);
-        h.record(2.0);
+        let n = if cfg["extra"].as_str().unwrap_or("none") == "none" { 2 } else { 12 };
+        for i in 1..=n {
+            h.record(i as f64);
+        }
     };
     let mut out: Vec<Vec<u8>> = Vec::new();
     match kind {
@@ -375,9 +432,12 @@ fn e4(ctx: &Ctx, res: &mut PartResult) {
     let mut n = 0;
     for kind in ["unix", "unixgram", "udp"] {
         for aggressive in [false, true] {
-            for (prefix, labels, as_dist) in [(None, false, true), (Some("pre"), true, false)] {
+            for (prefix, labels, as_dist, extra) in [(None, false, true, "none"), (Some("pre"), true, false, "none"), (None, false, true, "maxlen"), (Some("pre"), true, false, "sampling")] {
+                if extra != "none" && aggressive {
+                    continue;
+                }
                 n += 1;
-                let cfg = json!({"transport": kind, "aggressive": aggressive, "prefix": prefix, "labels": labels, "as_dist": as_dist});
+                let cfg = json!({"transport": kind, "aggressive": aggressive, "prefix": prefix, "labels": labels, "as_dist": as_dist, "extra": extra});
                 if let Some(rp) = &ctx.replay {
                     if *rp != cfg {
                         continue;
@@ -421,6 +481,43 @@ fn e4(ctx: &Ctx, res: &mut PartResult) {
                     (format!("{}gau", pfx), 'g', vec!["2.5".to_string()], gl.clone()),
                     (format!("{}his", pfx), ht, vec!["1.0".to_string(), "2.0".to_string()], gl.clone()),
                 ];
+                let mut msgs = msgs;
+                if extra != "none" {
+                    // the 12-value histogram is judged on its own: split across payloads within the limit / sampled
+                    let his: Vec<Msg> = msgs.iter().filter(|m| m.ty == ht).cloned().collect();
+                    msgs.retain(|m| m.ty != ht);
+                    want.retain(|w| w.1 != ht);
+                    let vals: Vec<f64> = his.iter().flat_map(|m| m.values.iter().map(|v| v.parse::<f64>().unwrap_or(f64::NAN))).collect();
+                    let all: Vec<f64> = (1..=12).map(|i| i as f64).collect();
+                    let bad = if his.iter().any(|m| m.name != format!("{}his", pfx) || m.tags != gl) {
+                        Some("histogram message with wrong name or tags".to_string())
+                    } else if extra == "maxlen" {
+                        if frames.iter().any(|f| f.len() > 40) {
+                            Some(format!("a payload is longer than the configured maximum of 40 bytes: {:?}", frames.iter().map(|f| f.len()).collect::<Vec<_>>()))
+                        } else if vals != all || his.iter().any(|m| m.rate.is_some()) {
+                            Some(format!("histogram values received {:?}, recorded {:?}", vals, all))
+                        } else if his.len() < 2 {
+                            Some("12 values cannot fit one 40-byte payload".to_string())
+                        } else {
+                            None
+                        }
+                    } else {
+                        let mut d = vals.clone();
+                        d.dedup();
+                        let rate: Option<f64> = his.first().and_then(|m| m.rate.as_ref()).and_then(|r| r.parse().ok());
+                        if vals.len() != 2 || d.len() != 2 || vals.iter().any(|v| !all.contains(v)) {
+                            Some(format!("reservoir of 2 over 12 recorded values sent {:?}", vals))
+                        } else if rate.map(|r| (r - 2.0 / 12.0).abs() > 1e-9).unwrap_or(true) {
+                            Some(format!("sample rate {:?}, expected {}", rate, 2.0 / 12.0))
+                        } else {
+                            None
+                        }
+                    };
+                    if let Some(b) = bad {
+                        res.violation("agent-socket-messages-differ", format!("{}: {}", cfg, b), cfg.clone());
+                        continue;
+                    }
+                }
                 let mut got: Vec<(String, char, Vec<String>, Vec<String>)> = msgs.iter().filter(|m| !(m.ty == 'c' && m.values == ["0"])).map(|m| (m.name.clone(), m.ty, m.values.clone(), m.tags.clone())).collect();
                 // gauges are re-sent on every flush: collapse repeats
                 got.sort();
@@ -492,13 +589,155 @@ fn sampling_part(res: &mut PartResult) {
     res.sample(json!({"reservoir": 2, "recorded": [4, 1], "expected": "2 values @0.5, then 1 value @1"}));
 }
 
+/// E3: every sequence of updates and flushes up to the depth, sequentially, against an exact reference model
+/// (sequentially the property leaves no freedom: each flush must send exactly the pending delta / zero discipline,
+/// the current gauge value and the histogram values recorded since the previous flush).
+fn seq_part(ctx: &Ctx, res: &mut PartResult, depth: usize, aggressive: bool, as_dist: bool) {
+    res.engine = "E3 all update/flush sequences up to the depth through the real handles + State::flush + PayloadWriter vs. an exact reference model".into();
+    let mut states = vcore::vseq::States::new();
+    const OPS: [&str; 8] = ["flush", "ci.increment(3)", "ca.absolute(next)", "gau.set(2.5)", "gau.increment(1)", "gau.decrement(0.25)", "his.record(k)", "ci.increment(0)"];
+    let mut run = |seq: &[usize]| -> Option<usize> {
+        let (mut drv, rec) = Driver::new(aggressive, false, 16, as_dist, vec![], None, 8192, false);
+        let ci = rec.register_counter(&Key::from_name("ci"), &META);
+        let ca = rec.register_counter(&Key::from_name("ca"), &META);
+        let g = rec.register_gauge(&Key::from_name("gau"), &META);
+        let h = rec.register_histogram(&Key::from_name("his"), &META);
+        // reference model
+        let (mut ci_pend, mut ci_idle) = (0u64, false);
+        let (mut ca_cur, mut ca_last, mut ca_idle, mut ca_abs) = (0u64, 0u64, false, false);
+        let mut gv = 0.0f64;
+        let mut hv: Vec<f64> = Vec::new();
+        let mut next_abs = 100u64;
+        let mut next_rec = 1.0f64;
+        let total = seq.len() + 2;
+        for step in 0..total {
+            let op = if step < seq.len() { seq[step] } else { 0 };
+            match op {
+                1 => {
+                    ci.increment(3);
+                    ci_pend += 3;
+                }
+                2 => {
+                    ca.absolute(next_abs);
+                    if !ca_abs {
+                        ca_abs = true;
+                        ca_last = next_abs;
+                    }
+                    ca_cur = next_abs;
+                    next_abs += 5;
+                }
+                3 => {
+                    g.set(2.5);
+                    gv = 2.5;
+                }
+                4 => {
+                    g.increment(1.0);
+                    gv += 1.0;
+                }
+                5 => {
+                    g.decrement(0.25);
+                    gv -= 0.25;
+                }
+                6 => {
+                    h.record(next_rec);
+                    hv.push(next_rec);
+                    next_rec += 1.0;
+                }
+                7 => ci.increment(0),
+                _ => {
+                    res.transitions += 1;
+                    let payloads = drv.flush_once();
+                    let mut msgs = Vec::new();
+                    for p in &payloads {
+                        match statsd::parse_message(p) {
+                            Ok(m) => msgs.push(m),
+                            Err(e) => {
+                                res.violation("malformed-payload", format!("{} in {:?} after {:?}", e, String::from_utf8_lossy(p), &seq[..step.min(seq.len())]), json!({"seq": seq, "aggressive": aggressive, "as_dist": as_dist}));
+                                return Some(step.min(seq.len() - 1));
+                            }
+                        }
+                    }
+                    let mut want: Vec<(String, char, Vec<String>)> = Vec::new();
+                    // counters: pending delta, or one zero when it stops changing
+                    if ci_pend > 0 {
+                        want.push(("ci".into(), 'c', vec![ci_pend.to_string()]));
+                        ci_idle = false;
+                        ci_pend = 0;
+                    } else if !ci_idle {
+                        want.push(("ci".into(), 'c', vec!["0".into()]));
+                        ci_idle = true;
+                    }
+                    let d = ca_cur - ca_last;
+                    ca_last = ca_cur;
+                    if d > 0 {
+                        want.push(("ca".into(), 'c', vec![d.to_string()]));
+                        ca_idle = false;
+                    } else if !ca_idle {
+                        want.push(("ca".into(), 'c', vec!["0".into()]));
+                        ca_idle = true;
+                    }
+                    want.push(("gau".into(), 'g', vec![format!("{:?}", gv)]));
+                    if !hv.is_empty() {
+                        want.push(("his".into(), if as_dist { 'd' } else { 'h' }, hv.iter().map(|v| format!("{:?}", v)).collect()));
+                        hv.clear();
+                    }
+                    let mut got: Vec<(String, char, Vec<String>)> = msgs.iter().map(|m| (m.name.clone(), m.ty, m.values.clone())).collect();
+                    // numeric comparison for the gauge (formatting is C09's business)
+                    for gt in got.iter_mut().filter(|x| x.1 == 'g') {
+                        if let Ok(v) = gt.2[0].parse::<f64>() {
+                            gt.2[0] = format!("{:?}", v);
+                        }
+                    }
+                    for gt in got.iter_mut().filter(|x| x.1 == 'd' || x.1 == 'h') {
+                        for v in gt.2.iter_mut() {
+                            if let Ok(x) = v.parse::<f64>() {
+                                *v = format!("{:?}", x);
+                            }
+                        }
+                    }
+                    got.sort();
+                    want.sort();
+                    states.add(&got);
+                    let cfg = json!({"seq": seq, "aggressive": aggressive, "as_dist": as_dist});
+                    if got != want {
+                        let names: Vec<&str> = seq[..step.min(seq.len())].iter().map(|o| OPS[*o]).collect();
+                        res.violation("sequential-flush-differs-from-reference", format!("after [{}] the flush sent {:?}, expected {:?}", names.join(", "), got, want), cfg);
+                        return Some(step.min(seq.len() - 1));
+                    }
+                    for m in &msgs {
+                        let want_ts = aggressive && (m.ty == 'c' || m.ty == 'g');
+                        if m.ts.is_some() != want_ts || !m.tags.is_empty() || m.rate.is_some() {
+                            res.violation("timestamp-mode-mismatch", format!("{:?} message: timestamp {:?}, tags {:?}, rate {:?} in {} mode with sampling off", m.ty, m.ts, m.tags, m.rate, if aggressive { "Aggressive" } else { "Conservative" }), cfg.clone());
+                            return Some(step.min(seq.len() - 1));
+                        }
+                    }
+                }
+            }
+        }
+        None
+    };
+    let (n, complete) = vcore::vseq::for_each_seq(OPS.len(), depth, &mut run, &|| ctx.over_budget());
+    res.executions = n;
+    if !complete {
+        res.exhaustive = false;
+        res.cap_hit = Some("wall budget".into());
+    }
+    res.states = states.len();
+    res.distinct_outcomes = states.len();
+    res.bound = json!({"depth": depth, "alphabet": OPS, "aggressive": aggressive, "as_distributions": as_dist, "then": "2 more flushes"});
+    res.sample(json!({"sequence": ["ci.increment(3)", "flush", "flush", "flush", "ci.increment(3)", "flush"], "expected_ci": "3, 0, (nothing), 3"}));
+}
+
 fn parts(ctx: &Ctx) -> Vec<PartSpec> {
     let e1 = |s: &str, pb: u64| PartSpec::new(&format!("e1-{}-pb{}", s, pb), json!({"e1": s, "pb": pb})).cpus("0");
     let mut v = vec![PartSpec::new("e4-sockets", json!({"e4": true})).budget(120.0), PartSpec::new("e3-sampling-on", json!({"sampling": true}))];
+    let d = if ctx.quick() { 5 } else { 7 };
+    v.push(PartSpec::new(&format!("e3-seq-d{}-conservative-dist", d), json!({"seq": d, "aggressive": false, "as_dist": true})).budget(if ctx.quick() { 50.0 } else { 2400.0 }));
+    v.push(PartSpec::new(&format!("e3-seq-d{}-aggressive-hist", d - 1), json!({"seq": d - 1, "aggressive": true, "as_dist": false})).budget(if ctx.quick() { 50.0 } else { 2400.0 }));
     if ctx.quick() {
-        v.extend([e1("inc", 2), e1("abs", 2), e1("gauge", 2), e1("hist", 2), e1("inc-aggressive", 1)]);
+        v.extend([e1("inc", 2), e1("abs", 2), e1("gauge", 2), e1("gauge-arith", 2), e1("hist", 2), e1("inc-aggressive", 1)]);
     } else {
-        v.extend([e1("inc", 4).budget(1500.0), e1("abs", 4).budget(1500.0), e1("gauge", 4).budget(1500.0), e1("hist", 3).budget(1500.0), e1("inc2", 3).budget(1500.0), e1("abs3", 3).budget(1500.0), e1("mixed", 3).budget(1500.0), e1("inc-aggressive", 2)]);
+        v.extend([e1("inc", 4).budget(1500.0), e1("abs", 4).budget(1500.0), e1("gauge", 4).budget(1500.0), e1("gauge-arith", 3).budget(1500.0), e1("hist", 3).budget(1500.0), e1("inc2", 3).budget(1500.0), e1("abs3", 3).budget(1500.0), e1("mixed", 3).budget(1500.0), e1("inc-aggressive", 2)]);
     }
     v
 }
@@ -513,6 +752,10 @@ fn run(ctx: &Ctx, spec: &PartSpec) -> PartResult {
         sampling_part(&mut res);
         return res;
     }
+    if let Some(d) = spec.arg["seq"].as_u64() {
+        seq_part(ctx, &mut res, d as usize, spec.arg["aggressive"].as_bool().unwrap_or(false), spec.arg["as_dist"].as_bool().unwrap_or(true));
+        return res;
+    }
     let pb = spec.arg["pb"].as_u64().unwrap_or(2) as usize;
     let scn = match spec.arg["e1"].as_str().unwrap_or("") {
         "inc" => scenario("updater inc(3),inc(4) || flusher x2; 1 initial + 3 final flushes", false, vec![vec![Upd::Inc(3), Upd::Inc(4)]], 2),
@@ -521,6 +764,7 @@ fn run(ctx: &Ctx, spec: &PartSpec) -> PartResult {
         "abs" => scenario("updater abs(100),abs(105) || flusher x2", false, vec![vec![Upd::Abs(100), Upd::Abs(105)]], 2),
         "abs3" => scenario("updater abs(100),abs(105),abs(110) || flusher x3", false, vec![vec![Upd::Abs(100), Upd::Abs(105), Upd::Abs(110)]], 3),
         "gauge" => scenario("updater set(1.5),set(2.5) || flusher x2", false, vec![vec![Upd::Set(1.5), Upd::Set(2.5)]], 2),
+        "gauge-arith" => scenario("updaters set(1.0),inc(0.5) | dec(0.25) || flusher x2", false, vec![vec![Upd::Set(1.0), Upd::GInc(0.5)], vec![Upd::GDec(0.25)]], 2),
         "hist" => scenario("updater rec(1),rec(2) || flusher x2", false, vec![vec![Upd::Rec(1.0), Upd::Rec(2.0)]], 2),
         _ => scenario("updater inc(3),set(1.5) | rec(1),inc(4) || flusher x2", false, vec![vec![Upd::Inc(3), Upd::Set(1.5)], vec![Upd::Rec(1.0), Upd::Inc(4)]], 2),
     };
@@ -532,7 +776,7 @@ fn main() {
     driver::main(CheckDef {
         prop: "C10",
         level: "model_checking",
-        rule: "E1: every SC interleaving (pb-bounded; 1 registry shard) of updater threads (increment / absolute / set / record through real handles) with a flusher thread driving the real State::flush + PayloadWriter, one initial and three final sequential flushes; every payload parsed by an independent DogStatsD parser; oracle: delta conservation, per-flush upper bound, zero discipline, most-recent gauge, histogram exactly-once, timestamp per documented mode; E4: transports {unix stream, unixgram, udp} x modes x prefix/labels/distribution configurations through the real forwarder thread into real sockets (framing, one message per datagram/frame, timestamp); distinct = distinct send sequences / received message sets",
+        rule: "E1: every SC interleaving (pb-bounded; 1 registry shard) of updater threads (increment / absolute / set / record through real handles) with a flusher thread driving the real State::flush + PayloadWriter, one initial and three final sequential flushes; every payload parsed by an independent DogStatsD parser; oracle: delta conservation, per-flush upper bound, zero discipline, most-recent gauge, histogram exactly-once, timestamp per documented mode; E3: every sequence (depth 5 quick / 7 thorough) over {flush, ci.increment(3), ci.increment(0), ca.absolute(next), gau.set, gau.increment, gau.decrement, his.record} + 2 final flushes, sequentially, against an exact reference model of what each flush must send; E4: transports {unix stream, unixgram, udp} x modes x prefix/labels/distribution configurations through the real forwarder thread into real sockets (framing, one message per datagram/frame, timestamp); distinct = distinct send sequences / received message sets",
         assumptions: &["E1: sequential consistency; the flush is driven synchronously (Driver::flush_once) instead of by the sleeping forwarder thread", "E4: the forwarder thread's flush cadence is timing-driven (40 ms); only framing/content/timestamps are judged there, with a 20 s timeout reported as a violation of 'the agent socket receives these messages'"],
         parts,
         run,
